@@ -78,6 +78,7 @@ fn build_cells(rep: &Report) -> Vec<Cell> {
 }
 
 pub fn run(rep: &mut Report) {
+    quiet_panics();
     rep.rule = "cell = (variant, hasher, entry point, m, weighted set pair); per trial fresh random u64 identifiers are drawn for the union, both sets are sketched by the real code and the trial statistics are: collision fraction X (target J_P from the O(n^2) closed form), (X-J_P)^2 (bound J_P(1-J_P)/m, one-sided), fraction of positions of sig(A) holding the heaviest item / the lightest half of the items (targets w/sum w). Staged z-test per statistic (3.5 sigma -> fresh stage x10 -> 5.5 sigma). A cell is non-trivial when 0 < J_P < 1; distinct cells counted by digest of (variant, entry, m, weights)".into();
     let cells = build_cells(rep);
     let t1: u64 = rep.tier.pick(10_000, 100_000);
